@@ -109,6 +109,30 @@ def deep_rejections(res, tier):
         sref = bytes.fromhex("d90100") + arr + cbor2.dumps(bytes(leaf)) + bytes.fromhex("d81900") * refs
         jobs.append((refs, "manifest", "shared-references", bytes.fromhex("d86ba103") + sref))
 
+    # every text string of two text-rich envelopes replaced by strings that are long and *almost* of a familiar shape (host names, versions,
+    # identifiers, paths): a validating pattern with nested repetition answers these in exponential time
+    probes = ["a" * 44 + "_", "wireless.nordicsemiconductor.exampl_", "cellular-iot.long-vendor-name.nordicsemi.example!", "a-" * 26 + "!", "1." * 30 + "x",
+              "ab" * 20 + ".ab" * 10 + "\u00e9", " " * 50 + "x", "a" * 300 + "!", "/a" * 40 + "\\", "0" * 60 + "g"]
+    text_envs = []
+    for lang_map in ({"suit-text-manifest-description": "d", "suit-text-update-description": "u", '["M", 1]': {
+            "suit-text-vendor-name": "v", "suit-text-model-name": "m", "suit-text-vendor-domain": "nordicsemi.com", "suit-text-model-info": "i",
+            "suit-text-component-description": "c", "suit-text-component-version": "1.0.0"}},):
+        dsc = {"SUIT_Envelope_Tagged": {"suit-authentication-wrapper": {"SuitDigest": {"suit-digest-algorithm-id": "cose-alg-sha-256"}},
+                                        "suit-manifest": {"suit-manifest-version": 1, "suit-manifest-sequence-number": 1, "suit-reference-uri": "http://x/y",
+                                                          "suit-common": {"suit-components": [["M", 1]]},
+                                                          "suit-validate": [{"suit-directive-override-parameters": {"suit-parameter-uri": "file://a/b"}}],
+                                                          "suit-text": {"suit-digest-algorithm-id": "cose-alg-sha-256"}},
+                                        "suit-text": {"en": lang_map}, "suit-integrated-payloads": {"#name": "ff00"}}}
+        r = suitcases.run_impl_create(dsc, {})
+        if "ok" in r:
+            text_envs.append(bytes.fromhex(r["ok"]))
+    for eb in text_envs:
+        root = ct.decode(eb)
+        for path, node in ct.paths(root):
+            if node.major == 3:
+                for pi, pr in enumerate(probes):
+                    jobs.append((pi, "text", "long-almost-valid-text", ct.encode(ct.replace(root, path, ct.tstr(pr)))))
+
     def one(job):
         lv, kind, tag, b = job
         try:
@@ -136,7 +160,7 @@ def deep_rejections(res, tier):
                                       "what": f"peak memory {rss} MB for a {len(b)}-byte input (memory far beyond the input size)"})
         elif tag == "valid" and r != "ok":
             res.spec_failures.append({"input": b.hex(), "kind": f"deep:{kind}:{tag}", "impl": r, "what": "a well-formed nested envelope was rejected"})
-        elif tag != "valid" and r == "ok":
+        elif tag not in ("valid", "long-almost-valid-text") and r == "ok":
             res.spec_failures.append({"input": b.hex(), "kind": f"deep:{kind}:{tag}", "what": "a malformed nested envelope was accepted"})
         elif dt > 2.0 + 0.002 * len(b):
             res.spec_failures.append({"input": b.hex(), "kind": f"deep:{kind}:{tag}", "seconds": dt, "length": len(b), "levels": lv,
